@@ -754,3 +754,7 @@ mod tests {
         );
     }
 }
+
+#[cfg(kani)]
+#[path = "/verif/harness/anda_cognitive_nexus/projection_mod.rs"]
+mod verif_kani;
